@@ -41,7 +41,7 @@ def _required_fields(cls):
 
 
 def structural_defects(tree, src, limit=6):
-    lines = io.StringIO(src).readlines()
+    lines = io.StringIO(src, newline=None).readlines()  # universal newlines, as the parser entry points read a source
     n = len(lines)
     out = []
 
